@@ -92,6 +92,20 @@ pub fn run(rng: &mut Rng, n: usize, sink: &mut Sink) {
             if format!("{a}") != format!("{s}") || format!("{a:?}") != format!("{s:?}") || format!("{a:>10}|{a:<7}|{a:^9.3}") != format!("{s:>10}|{s:<7}|{s:^9.3}") {
                 bad("Display/Debug");
             }
+            // every formatting flag a caller can put in the braces (alternate, width, fill, alignment, precision), and the
+            // value as a field of a derived `Debug` (pretty-printed too): all of it must be `str`'s output
+            {
+                #[derive(Debug)]
+                #[allow(dead_code)]
+                struct Wrap<T> { text: T, n: u8 }
+                let (wa, ws) = (Wrap { text: a.clone(), n: 7 }, Wrap { text: s.to_string(), n: 7 });
+                if format!("{a:#?}|{a:#}|{a:12?}|{a:*^9}|{a:-<4.1}|{a:>w$}|{a:.0}|{a:5.2?}", w = 6) != format!("{s:#?}|{s:#}|{s:12?}|{s:*^9}|{s:-<4.1}|{s:>w$}|{s:.0}|{s:5.2?}", w = 6)
+                    || format!("{wa:?}|{wa:#?}") != format!("{ws:?}|{ws:#?}")
+                    || format!("{:?}|{:#?}", Some(a), [a, a]) != format!("{:?}|{:#?}", Some(s), [s, s])
+                {
+                    bad("Display/Debug with format flags (alternate, width, fill, precision) or inside a derived Debug");
+                }
+            }
             let br: &str = a.borrow();
             let ar: &str = a.as_ref();
             let ab: &[u8] = a.as_ref();
@@ -276,6 +290,26 @@ pub fn serde(rng: &mut Rng, n: usize, sink: &mut Sink) {
             match d {
                 Ok(s) if s.as_str() == t.as_str() => {}
                 other => sink.fail(&["C19"], format!("deserialize route {k} of {:?} gave {:?}", t, other.map(|s| s.as_str().to_string()))),
+            }
+        }
+        // the same five routes through `deserialize_in_place`, over places that already hold something (inline, heap,
+        // shared heap): the result must be what `String::deserialize_in_place` leaves
+        for old in ["", "old", "an old text that is longer than sixteen bytes"] {
+            for route in 0..5usize {
+                evals += 1;
+                let mut p1 = LeanString::from(old);
+                let keep = p1.clone();
+                let mut p2 = String::from(old);
+                let (r1, r2): (Result<(), VErr>, Result<(), VErr>) = match route {
+                    0 => (Deserialize::deserialize_in_place(StrDeserializer::new(t.as_str()), &mut p1), Deserialize::deserialize_in_place(StrDeserializer::new(t.as_str()), &mut p2)),
+                    1 => (Deserialize::deserialize_in_place(BorrowedStrDeserializer::new(t.as_str()), &mut p1), Deserialize::deserialize_in_place(BorrowedStrDeserializer::new(t.as_str()), &mut p2)),
+                    2 => (Deserialize::deserialize_in_place(StringDeserializer::new(t.clone()), &mut p1), Deserialize::deserialize_in_place(StringDeserializer::new(t.clone()), &mut p2)),
+                    3 => (Deserialize::deserialize_in_place(BytesDeserializer::new(t.as_bytes()), &mut p1), Deserialize::deserialize_in_place(BytesDeserializer::new(t.as_bytes()), &mut p2)),
+                    _ => (Deserialize::deserialize_in_place(BorrowedBytesDeserializer::new(t.as_bytes()), &mut p1), Deserialize::deserialize_in_place(BorrowedBytesDeserializer::new(t.as_bytes()), &mut p2)),
+                };
+                if r1.is_ok() != r2.is_ok() || (r1.is_ok() && p1.as_str() != p2.as_str()) || keep.as_str() != old {
+                    sink.fail(&["C19"], format!("deserialize_in_place route {route} of {:?} over {:?}: {:?} holding {:?}; String: {:?} holding {:?}", t, old, r1.is_ok(), p1.as_str(), r2.is_ok(), p2));
+                }
             }
         }
         let _ = t.as_str().into_deserializer() as StrDeserializer<VErr>;
